@@ -1,6 +1,7 @@
 package props
 
 import (
+	"bufio"
 	"crypto/sha256"
 	"encoding/json"
 	"fmt"
@@ -58,7 +59,7 @@ func (c20) Mandatory(tier string) []string {
 		m = append(m, "strace:syscalls-observed", "strace:dry-run:Copy", "strace:dry-run:Move", "strace:dry-run:Remove", "strace:injected:Copy", "strace:injected:Move", "strace:injected:Remove")
 	}
 	return append(m, "fault:Copy:control-copy-cut-short", "fault:Remove:missing-source", "k:0", "k:1", "k:2+", "order:copy-control-after-all-closed", "order:move-control-last",
-		"order:remove-control-last", "hostile:../secret.txt", "hostile:sub/../../secret.txt", "hostile:../../other/o.txt", "hostile:/abs/x", "hostile:sub/inner.txt", "hostile:../", "hostile:..//", "hostile:./", "hostile:/", "hostile:sub/", "hostile:../../other/", "hostile:sub/..", "inotify-events-seen", "dest-has-longer-files-of-the-same-names", "hostile:only-in-checksum-fields", "hostile:control-file-lists-itself", "sequence:harmless-upload-through-the-same-path-first", "sequence:Copy then Remove", "sequence:Copy then Move", "sequence:Move then Remove", "sequence:Move then Move")
+		"order:remove-control-last", "hostile:../secret.txt", "hostile:sub/../../secret.txt", "hostile:../../other/o.txt", "hostile:/abs/x", "hostile:sub/inner.txt", "hostile:../", "hostile:..//", "hostile:./", "hostile:/", "hostile:sub/", "hostile:../../other/", "hostile:sub/..", "inotify-events-seen", "dest-has-longer-files-of-the-same-names", "hostile:only-in-checksum-fields", "hostile:control-file-lists-itself", "sequence:harmless-upload-through-the-same-path-first", "handle:reader-entry-point-with-unclean-path", "sequence:Copy then Remove", "sequence:Copy then Move", "sequence:Move then Remove", "sequence:Move then Move")
 }
 
 type c20Case struct {
@@ -236,17 +237,37 @@ func (p c20) run(c *core.C, t *core.T, cs c20Case) {
 	// parse the handle
 	var up upload
 	var filename func() string
+	// the handle comes from the ...File entry point, or from the reader entry point with the path the caller
+	// happens to have - not necessarily in its cleaned form
+	handlePath := ctlPath
+	viaReader := cs.Seed%3 == 0
+	if viaReader {
+		handlePath = []string{src + "//" + ctlName, src + "/./" + ctlName, filepath.Join(src, "sub") + "/../" + ctlName}[(cs.Seed/3)%3]
+		c.Cover("handle:reader-entry-point-with-unclean-path")
+	}
 	if cs.Handle == "dsc" {
-		d, err := control.ParseDscFile(ctlPath)
+		var d *control.DSC
+		var err error
+		if viaReader {
+			d, err = control.ParseDsc(bufio.NewReader(strings.NewReader(sb.String())), handlePath)
+		} else {
+			d, err = control.ParseDscFile(ctlPath)
+		}
 		if err != nil {
-			c.Failf("ParseDscFile: %v", err)
+			c.Failf("ParseDsc(File): %v", err)
 			return
 		}
 		up, filename = d, func() string { return d.Filename }
 	} else {
-		ch, err := control.ParseChangesFile(ctlPath)
+		var ch *control.Changes
+		var err error
+		if viaReader {
+			ch, err = control.ParseChanges(bufio.NewReader(strings.NewReader(sb.String())), handlePath)
+		} else {
+			ch, err = control.ParseChangesFile(ctlPath)
+		}
 		if err != nil {
-			c.Failf("ParseChangesFile: %v", err)
+			c.Failf("ParseChanges(File): %v", err)
 			return
 		}
 		up, filename = ch, func() string { return ch.Filename }
